@@ -37,10 +37,23 @@ def run(ctx):
     maxlen = ctx.scale(40, 64)
     for n in range(1, maxlen + 1):
         l = [gens.rb(rng, 32) for _ in range(n)]
-        root = get_merkle_root(list(l))
+        # one list object throughout, as a caller has it who commits to a list and then proves entries of it
+        same = list(l)
+        root = get_merkle_root(same)
         ops.append("mroot " + " ".join(x.hex() for x in l))
         impl.append(root.hex())
-        tree = get_merkle_tree(list(l))
+        if same != l:
+            res.violations.append({"kind": "computing the commitment of a list changed the list (the caller's proofs and "
+                                           "any second commitment are then about another list)",
+                                   "list": [x.hex() for x in l], "afterwards": [x.hex() for x in same]})
+        if get_merkle_root(same) != root:
+            res.violations.append({"kind": "asking twice for the commitment of the same list object gives two commitments",
+                                   "list": [x.hex() for x in l]})
+        tree = get_merkle_tree(same)
+        if same != l:
+            res.violations.append({"kind": "building the proof tree of a list changed the list",
+                                   "list": [x.hex() for x in l], "afterwards": [x.hex() for x in same]})
+            same = list(l)
         if tree.hash() != root:
             res.violations.append({"kind": "tree hash differs from root", "list": [x.hex() for x in l]})
         for i in range(n):
